@@ -387,3 +387,38 @@ impl Drop for TVal {
         self.chk = TOMB;
     }
 }
+
+
+/// Self-test of the ledger: a double drop, a leak and a drop under a lease must be reported.
+pub fn selftest_ledger() -> Vec<String> {
+    let mut fails = Vec::new();
+    let l = ledger();
+    l.reset();
+    {
+        let v = TVal::new(7);
+        // safety: TVal owns no heap memory; duplicating it only makes its Drop run twice
+        let dup = unsafe { std::ptr::read(&v) };
+        drop(v);
+        drop(dup);
+    }
+    if !l.report().errors.iter().any(|e| e.contains("double drop")) {
+        fails.push("ledger selftest: a double drop was not reported".into());
+    }
+    l.reset();
+    let leaked = TKey::new(1, 0);
+    std::mem::forget(leaked);
+    if l.report().live != 1 {
+        fails.push("ledger selftest: a leaked instance was not reported".into());
+    }
+    l.reset();
+    {
+        let v = TVal::new(9);
+        l.lease(v.id);
+        drop(v);
+    }
+    if !l.report().errors.iter().any(|e| e.contains("still alive")) {
+        fails.push("ledger selftest: a drop under a lease was not reported".into());
+    }
+    l.reset();
+    fails
+}
